@@ -169,7 +169,7 @@ func (s *c07Spec) ncols() int {
 // render builds the table and renders it: either in one go through a fresh wrapper, or (staged) through
 // a wrapper created first, which renders the partial table under other skipable settings before the
 // table is completed and the final settings (with withdrawals) are put in force.
-func (s *c07Spec) render() (string, error) {
+func (s *c07Spec) render(c *Ctx) (string, error) {
 	if !s.Staged {
 		return json.Wrap(s.build()).Render()
 	}
@@ -197,9 +197,11 @@ func (s *c07Spec) render() (string, error) {
 			t.Column(n).SetProperty(properties.Skipable, v)
 		}
 	}
-	jw.Render()
+	o1, _ := jw.Render()
+	c.Keep(o1, "an earlier Render through the same wrapper")
 	addRows(s.StageAt, len(s.Rows))
-	jw.Render()
+	o2, _ := jw.Render()
+	c.Keep(o2, "an earlier Render through the same wrapper")
 	for n := 0; n <= t.NColumns(); n++ {
 		var v interface{}
 		if n == 0 {
@@ -472,7 +474,7 @@ func c07SameJSON(a, b []byte) bool {
 
 func c07Check(c *Ctx, s *c07Spec, sigExtra string, sample bool) {
 	c.Case = s
-	out, err := s.render()
+	out, err := s.render(c)
 	if s.Staged {
 		c.Rec.Count("staged_cases(render, change, render again through the same wrapper)", 1)
 	}
